@@ -137,9 +137,13 @@ def judge_consumer(ctx, case):
 def mutate(rnd, s):
     """One mutation of a valid string; returns (tag, string)."""
     op = rnd.choice(["subst", "subst", "subst-lookalike", "insert", "delete", "transpose", "prefix1", "truncate", "caseflip",
-                     "strip1", "append", "nonascii", "space"])
+                     "strip1", "append", "nonascii", "space", "affix-outside"])
     if not s:
         return "empty", s
+    if op == "affix-outside":
+        # a character that is not Base58 at either END of an otherwise valid string (what `$`, strip() and friends forgive)
+        c = rnd.choice([" ", "\t", "\n", "\r", "\r\n", "\x0b", "\x0c", "\x00", "\x7f", "\x1c", "\x85", "\xa0", "\u2028", "\ufeff", "\u200b", "\n\n"])
+        return op, (s + c) if rnd.random() < 0.6 else (c + s)
     i = rnd.randrange(len(s))
     if op == "subst":
         c = rnd.choice(ALPH.replace(s[i], ""))
